@@ -110,7 +110,18 @@ def check_tree(res, verdict, inv, umask=0o022, t_start_ns=None, fault_exempt=(),
     source_paths = set()
     for (phys, rel, k, tgt) in verdict.selected:
         source_paths.add(phys)
-    source_objs = set(pre.get(p)["o"] for p in source_paths if pre.get(p) is not None)
+    # the invocation's own source arguments are sources whatever the verdict (a rejected self-copy selects nothing)
+    from .model import norm as _norm
+    if not fl.get("glob"):
+        for sp in inv.get("sources", []):
+            try:
+                phys, ent = pre.resolve(_norm(sp), follow_last=False)
+            except Exception:
+                phys, ent = None, None
+            if phys is not None and ent is not None:
+                for q in pre.subtree(phys):
+                    source_paths.add(q)
+    source_objs = set(pre.get(p)["o"] for p in source_paths if pre.get(p) is not None and pre.get(p)["k"] != "d")
     parents_touched = set()
     for p in mapped_paths:
         parents_touched.add(posixpath.dirname(p) or ".")
